@@ -484,12 +484,17 @@ def own_cost(areas, names, cs, nets):
     return ov + wl / 2
 
 
+STATS = {"calls": 0, "rebuilt_twin_unavailable": 0, "caller_steps": 0, "caller_steps_raised": 0}
+
+
 def reloc_step(case, die, st):
     """one relocation call on the die as it is; the same call on two other object graphs with the same values"""
     import tools.force.fruchterman_reingold as M
     before = state(die)
     pristine = copy.deepcopy(die)           # the values (and the sharing) of this moment
     twins = {"deepcopy": copy.deepcopy(pristine), "rebuilt": rebuild(case, before)}
+    STATS["calls"] += 1
+    STATS["rebuilt_twin_unavailable"] += twins["rebuilt"] is None
     d2, trace, nimgs, newfiles = call(st, die)
     after = state(d2)
     o = {"kind": st["op"], "before": before, "after": after, "same_object": d2 is die,
@@ -553,6 +558,8 @@ def caller_step(case, die, st):
             raise ValueError(op)
     except AssertionError as e:         # e.g. create_squares on a netlist with a terminal: stops half way
         raised = str(e)
+    STATS["caller_steps"] += 1
+    STATS["caller_steps_raised"] += raised is not None
     return {"kind": op, "raised": raised, "after": state(die)}, die
 
 
@@ -704,16 +711,6 @@ def oracle_call(case, o):
                 continue
             if abs(x - core.frac(c0[0])) > ulp_tol(W, c0[0]) or abs(y - core.frac(c0[1])) > ulp_tol(H, c0[1]):
                 return f"fixed module {name} moved from {c0} to {c}"
-    # deterministic: the same values in other objects give the same values
-    for name, tw in o["twins"].items():
-        if tw is None:
-            continue
-        what = {"deepcopy": "a deep copy of the die taken just before the call",
-                "rebuilt": "a die with the same values built afresh from the YAML text"}[name]
-        if tw["cs"] != a["cs"]:
-            return f"not deterministic: the same call on {what} returned the centres {tw['cs']} instead of {a['cs']}"
-        if not tw["rest_equal"]:
-            return f"not deterministic: the same call on {what} left other areas / rectangles / nets"
     if o["kind"] == "algo":
         if "ret_cost" not in o:
             return "returned layout has no cost"
@@ -726,6 +723,16 @@ def oracle_call(case, o):
         # and it must be one of the candidate layouts
         if not any(ck == a["cs"] for _, _, ck in o["cand"]):
             return "returned layout is none of the layouts of the spring constants 0.4 .. 1.5"
+    # deterministic: the same values in other objects give the same values
+    for name, tw in o["twins"].items():
+        if tw is None:
+            continue
+        what = {"deepcopy": "a deep copy of the die taken just before the call",
+                "rebuilt": "a die with the same values built afresh from the YAML text"}[name]
+        if tw["cs"] != a["cs"]:
+            return f"not deterministic: the same call on {what} returned the centres {tw['cs']} instead of {a['cs']}"
+        if not tw["rest_equal"]:
+            return f"not deterministic: the same call on {what} left other areas / rectangles / nets"
     return None
 
 
@@ -782,8 +789,11 @@ def dist_key(case):
     if len(sts) == 1:
         s = sts[0]
         return f"{s['op']}/iter{min(s['max_iter'], 3)}{'+' if s['max_iter'] > 3 else ''}"
-    sig = ">".join(short(s) for s in sts[:5]) + (">.." if len(sts) > 5 else "")
-    return "history/" + sig
+    ops = [s["op"] for s in sts]
+    ncalls = sum(1 for o in ops if o in CALLS)
+    return (f"history/{min(ncalls, 3)}call{'s' if ncalls > 1 else ''}/{'algo' if 'algo' in ops else 'layout'}"
+            + ("/squares" if "squares" in ops or "alloc" in ops else "") + ("/edit" if "set" in ops else "")
+            + ("/copy" if "deepcopy" in ops or "newdie" in ops else ""))
 
 
 def long_case(rng):
@@ -840,3 +850,4 @@ def run(ctx, out, replay=None):
                  dist_key=dist_key, nontrivial=nontrivial, shard=5, shrink=shrink)
     out.extra["relocation_calls"] = sum(1 for c in cases for s in steps_of(c) if s["op"] in CALLS)
     out.extra["history_cases"] = sum(1 for c in cases if len(steps_of(c)) > 1)
+    out.extra["implementation_runs"] = dict(STATS)
